@@ -64,6 +64,20 @@ def C06(g, tier):
             yield sx(["ff_transpose", a, b]), a > 1 and b > 1
             for x in range(3):
                 yield sx(["ff_constant", a, x, b]), a > 0
+    for s2, t2, n2 in deep_cc_cases(g, N(tier, 10, 100)):
+        for bk in BACKENDS:
+            yield sx(["ff_coequalizer", bk, [s2, n2], [t2, n2]]), True
+    for _ in range(N(tier, 60, 600)):
+        n3 = g.r.randint(6, 30)
+        sa, sb = long_legs(g, n3, g.r.randint(8, 40))
+        for bk in BACKENDS:
+            yield sx(["ff_coequalizer", bk, [sa, n3], [sb, n3]]), True
+        # long tables with the offending entry anywhere (also in the tail)
+        t3 = g.r.randint(1, 9)
+        tab = [g.nat(t3 - 1) for _ in range(g.r.randint(9, 40))]
+        if g.r.random() < 0.5:
+            tab[g.r.choice([len(tab) - 1, len(tab) - 2, g.r.randrange(len(tab))])] = t3 + g.nat(2)
+        yield sx(["ff_new", tab, t3]), True
     # random stream
     for _ in range(N(tier, 400, 4000)):
         f = g.ff()
@@ -118,6 +132,35 @@ def C06(g, tier):
 def ranges(g, n):
     a, b = g.nat(n + 1), g.nat(n + 1)
     return g.r.choice([["full"], ["from", a], ["to", b], ["fromto", a, b], ["toincl", b], ["fromtoincl", a, b]])
+
+
+def long_legs(g, n, k):
+    """two index lists of length k over [0,n) with structured patterns (long chains in awkward orders)"""
+    pat = g.r.choice(["zigzag", "dec_const", "const_dec", "inc_shift", "dec_shift", "random", "pairs_rev"])
+    if n == 0:
+        return [], []
+    if pat == "zigzag":
+        a = [(i // 2) % n for i in range(k)]
+        b = [((i + 1) // 2) % n for i in range(k)]
+        a, b = a[::-1], b[::-1]
+    elif pat == "dec_const":
+        a = [(n - 1 - i) % n for i in range(k)]
+        b = [0] * k
+    elif pat == "const_dec":
+        a = [n - 1] * k
+        b = [(n - 1 - i) % n for i in range(k)]
+    elif pat == "inc_shift":
+        a = [i % n for i in range(k)]
+        b = [(i + 1) % n for i in range(k)]
+    elif pat == "dec_shift":
+        a = [(n - 1 - i) % n for i in range(k)]
+        b = [(n - 2 - i) % n for i in range(k)]
+    elif pat == "pairs_rev":
+        a = [(2 * i) % n for i in range(k)][::-1]
+        b = [(2 * i + 1) % n for i in range(k)][::-1]
+    else:
+        a, b = g.nats(k, n - 1), g.nats(k, n - 1)
+    return a, b
 
 
 def tournament_edges(g, n, shuffle=True):
@@ -190,6 +233,17 @@ def C07(g, tier):
         xs = g.nats(n, 5)
         ys = g.nats(n if g.r.random() < 0.9 else g.size(), 5)
         ix = g.nats(g.size(6), max(n - 1, 0)) if (n and g.r.random() < 0.9) else g.nats(g.size(), n + 1)
+        yield sx(["a_max", xs]), n > 0
+        yield sx(["a_max", [g.nat(3) for _ in range(g.r.randint(9, 30))] + [g.r.choice([0, 7, 9])]]), True
+        yield sx(["a_sum", xs]), n > 0
+        yield sx(["a_cumsum", xs]), n > 0
+        yield sx(["a_zero", xs]), n > 0
+        if g.r.random() < 0.3:
+            nn3 = g.r.randint(6, 30)
+            sa, sb = long_legs(g, nn3, g.r.randint(8, 40))
+            for bk in BACKENDS:
+                yield sx(["a_cc", bk, sa, sb, nn3]), True
+            yield sx(["a_cc_uf", sa, sb, nn3]), True
         pre = g.r.choice(["a_", "al_"])
         yield sx([pre + "get", xs, g.nat(n)]), n > 0
         yield sx([pre + "gather", xs, ix]), n > 0 and len(ix) > 0
@@ -463,6 +517,20 @@ def C01(g, tier):
         h3 = [[gs, half], [list(range(half)), half], [[[[], 1], [[], half]], [[[], 1], [[], half]], w, []]]
         for bk in BACKENDS:
             yield sx(["ohg_compose", bk, f3, h3]), True
+    # long boundaries with structured (zig-zag, decreasing, constant) legs between two discrete diagrams
+    for _ in range(N(tier, 60, 600)):
+        nf, ng = g.r.randint(2, 12), g.r.randint(2, 12)
+        k = g.r.randint(8, 30)
+        a, b = long_legs(g, max(nf, ng), k)
+        a = [x % nf for x in a]
+        b = [x % ng for x in b]
+        if g.r.random() < 0.5:
+            a, b = [x % nf for x in b], [x % ng for x in a]
+        disc = lambda n_, s_, t_: [[s_, n_], [t_, n_], [[[[], 1], [[], n_]], [[[], 1], [[], n_]], [0] * n_, []]]
+        f4 = disc(nf, g.nats(2, nf - 1), a)
+        h4 = disc(ng, b, g.nats(2, ng - 1))
+        for bk in BACKENDS:
+            yield sx(["ohg_compose", bk, f4, h4]), True
     # chains collapsing many nodes into one: spiders with non-injective legs
     for _ in range(N(tier, 150, 1500)):
         n = g.r.randint(1, 4)
@@ -516,6 +584,16 @@ def tournament_pair(g, half):
 
 def C03(g, tier):
     S = lambda f: ["s", f]
+    for _ in range(N(tier, 25, 250)):
+        bk = g.r.choice(BACKENDS)
+        x = g.nats(g.r.randint(5, 30), 1)
+        y = g.nats(g.r.randint(5, 30), 1)
+        z = g.nats(g.r.randint(0, 4), 1)
+        yield sx(["law", bk, ["scomp", ["stwist", x, y], ["stwist", y, x]], ["sid", x + y]]), True
+        yield sx(["law", bk, ["stwist", x, y + z],
+                  ["scomp", ["stens", ["stwist", x, y], ["sid", z]], ["stens", ["sid", y], ["stwist", x, z]]]]), True
+        yield sx(["ohg_twist", x, y]), True
+        yield sx(["ff_twist", len(x), len(y)]), True
     for _ in range(N(tier, 6, 40)):
         half = g.r.choice([8, 12, 16, 32])
         f3, h3 = tournament_pair(g, half)
@@ -585,6 +663,20 @@ def C03(g, tier):
 
 def C04(g, tier):
     S = lambda f: ["s", f]
+    for _ in range(N(tier, 60, 600)):
+        n1, n2 = g.r.randint(2, 12), g.r.randint(2, 12)
+        k = g.r.randint(8, 30)
+        a, b = long_legs(g, max(n1, n2), k)
+        a = [x % n1 for x in a]
+        b = [x % n2 for x in b]
+        w1, w2 = [0] * n1, [0] * n2
+        s1, t2 = g.ff(t=n1), g.ff(t=n2)
+        bk = g.r.choice(BACKENDS)
+        yield sx(["term", bk, ["scomp", ["sspider", s1, [a, n1], w1], ["sspider", [b, n2], t2, w2]]]), True
+        yield sx(["term", "vec", ["to_strict", ["lcomp", ["lspider", s1, [a, n1], w1], ["lspider", [b, n2], t2, w2]]]]), True
+        f5 = ["sspider", s1, [a, n1], w1]
+        h5 = ["sspider", [b, n2], t2, w2]
+        yield sx(["law", bk, ["sdag", ["scomp", f5, h5]], ["scomp", ["sdag", h5], ["sdag", f5]]]), True
     for _ in range(N(tier, 250, 2500)):
         bk = g.r.choice(BACKENDS)
         f, h = composable(g)
@@ -641,6 +733,17 @@ def break_ic(g, c):
 
 
 def C05(g, tier):
+    for _ in range(N(tier, 80, 800)):
+        t3 = g.r.randint(1, 9)
+        tab = [g.nat(t3 - 1) for _ in range(g.r.randint(9, 40))]
+        if g.r.random() < 0.6:
+            tab[g.r.choice([len(tab) - 1, len(tab) - 2, g.r.randrange(len(tab))])] = t3 + g.nat(2)
+        yield sx(["ff_new", tab, t3]), True
+        sizes = [g.r.choice([0, 1, 2, 3]) for _ in range(g.r.randint(9, 20))]
+        vals = [g.nat(t3 - 1) for _ in range(sum(sizes))]
+        if vals and g.r.random() < 0.5:
+            vals[-1] = t3 + 1
+        yield sx(["icf_from_semifinite", sizes, [vals, t3]]), True
     for _ in range(N(tier, 300, 3000)):
         f = g.ohg()
         s, t, h = f
@@ -1093,20 +1196,25 @@ def C15(g, tier):
         yield sx(["g_indegree", adj]), n >= 3
 
 
-def single_writer_circuit(g):
-    """acyclic, every node written at most once; fan-out through shared nodes allowed"""
+def single_writer_circuit(g, wide=0):
+    """acyclic, every node written at most once; fan-out through shared nodes allowed;
+    wide = number of leading operations that read the inputs only (one wide first layer)"""
     nodes = 0
     written = []
     edges, ss, tt = [], [], []
-    nin = g.r.randint(0, 3)
+    nin = g.r.randint(0, 3) if not wide else g.r.randint(1, 4)
     ins = list(range(nin))
     nodes = nin
     written = list(ins)
-    for _ in range(g.r.randint(8, 25) if g.big() else g.r.randint(1, 7)):
+    nops = g.r.randint(8, 25) if g.big() else g.r.randint(1, 7)
+    if wide:
+        nops = wide + g.r.randint(0, 4)
+    for k in range(nops):
         lab = g.r.choice([0, 1, 2, 3, 4, 5, 6, 7, 8, 10 + g.nat(5)])
         co = len({0: [0], 1: [0], 2: [0], 3: [0, 0], 4: [], 5: [0], 6: [0], 7: [0], 8: [0, 0, 0]}.get(lab, [0]))
         ar = 0 if lab >= 10 else g.r.randint(0, 3)
-        srcs = [g.r.choice(written) for _ in range(ar)] if written else []
+        pool = ins if k < wide else written
+        srcs = [g.r.choice(pool) for _ in range(ar)] if pool else []
         tg = list(range(nodes, nodes + co))
         nodes += co
         written += tg
@@ -1343,6 +1451,15 @@ def C19(g, tier):
         ecmds, eins, eouts = var_program(g, evaluable=True)
         einp = [Z(g.r.choice([0, 1, 2, g.r.getrandbits(64)])) for _ in eins]
         yield sx(["var_eval", ecmds, eins, eouts, einp]), sum(1 for c in ecmds if c[0] == "apply") >= 2
+        if g.r.random() < 0.2:
+            ks, kt = g.r.randint(5, 14), g.r.randint(0, 4)
+            nodes = [1] * (ks + kt)
+            if g.r.random() < 0.6:
+                nodes[g.r.choice([ks - 1, ks - 2, ks + kt - 1, g.r.randrange(ks + kt)])] = 2
+            wide = [list(range(ks)), list(range(ks, ks + kt)),
+                    [nodes, [9], [[list(range(ks)), list(range(ks, ks + kt))]], [[], []]]]
+            yield sx(["term", "vec", ["forget", Lx(wide)]]), True
+            yield sx(["term", "vec", ["forget_monogamous", Lx(wide)]]), True
         f = var_term(g)
         nonuniform = True
         yield sx(["term", "vec", ["forget", Lx(f)]]), nonuniform
@@ -1363,11 +1480,23 @@ def C20(g, tier):
         c = single_writer_circuit(g)
         e = encode_circuit(*c)
         inp = [Z(g.r.getrandbits(64)) for _ in c[1]]
-        for bk in BACKENDS:
+        for bk in BACKENDS3:
             yield sx(["eval", bk, e, inp]), True
+        # one wide layer (5..10 operations with contiguous indices), then a few more operations
+        c = single_writer_circuit(g, wide=g.r.randint(5, 10))
+        c = c[:2] + ([g.r.randrange(c[0]) for _ in range(g.r.randint(1, 6))],) + c[3:]
+        e = encode_circuit(*c)
+        inp = [Z(g.r.choice([1, 2, 3, g.r.getrandbits(64)])) for _ in c[1]]
+        for bk in BACKENDS3:
+            yield sx(["eval", bk, e, inp]), True
+            yield sx(["layer", bk, e]), True
+        yield sx(["layered_operations", "adv2", e]), True
+        yield sx(["ohg_compose", "adv2", f, h]), True
+        yield sx(["term", "adv2", ["sfmap_id", S(f)]]), True
 
 
 VEC_ONLY = {"ics_iter_slices", "ops_iter"}
+BACKENDS3 = ["vec", "adv", "adv2"]
 
 
 def C20_generic(g, tier):
@@ -1376,6 +1505,8 @@ def C20_generic(g, tier):
         n = 0
         for text, nt in fn(g, "quick"):
             op, _, rest = text[1:].partition(" ")
+            if not rest:
+                continue
             if op in VEC_ONLY or op in ("term", "law") or op.startswith("l") or op.startswith("sfa") or op == "hg_empty":
                 continue
             if rest.startswith("vec ") or rest.startswith("adv "):
@@ -1383,7 +1514,7 @@ def C20_generic(g, tier):
             n += 1
             if tier == "quick" and n % 3:
                 continue
-            yield "(" + op + " adv " + rest, nt
+            yield "(" + op + (" adv " if n % 2 else " adv2 ") + rest, nt
 
 
 def C20_all(g, tier):
